@@ -5,7 +5,7 @@ A stratified run is still one simulated run of the same engine: a JSON op list
 executed on real PyFVTool objects under the same invariants, shrinkable and
 replayable like any other.  What differs is where the op list comes from: the
 run index is decoded (mixed radix) into one cell of a small product space --
-e.g. (grid class) x (a history of <= k letters over a 30-letter edit / solve /
+e.g. (grid class) x (a history of <= k letters over a 31-letter edit / solve /
 fault alphabet) -- and everything the stratum leaves open (mesh spacing, which
 side is edited, coefficient values) is drawn from a PRNG seeded by the index.
 Random search visits short histories and operator x operand matrices only by
@@ -130,7 +130,7 @@ HIST_LETTERS = (
     "solve_B", "explicit_A", "explicit_B", "copy_A", "newvar_shared",
     "solve_A_solver_raises", "solve_A_solver_scribbles", "solve_B_unknown_term",
     "operator_A", "untracked_then_remedy", "utility_fails_half_way",
-    "apply_A_alloc_fails", "solve_A_alloc_fails",
+    "apply_A_alloc_fails", "solve_A_alloc_fails", "aux_noprecalc_consumes",
 )
 NL = len(HIST_LETTERS)
 
@@ -273,6 +273,19 @@ def _hist_letter(st, name):
         return _solve_ops(st, st.A, mode="ext_scribble_raise")
     if name == "solve_B_unknown_term":
         return _solve_ops(st, st.B, bad="ndim3")
+    if name == "aux_noprecalc_consumes":
+        # an auxiliary field without cached boundary term on the same BC object is
+        # refreshed first (apply_BCs, or as the input of an explicit step)
+        out = st.fresh("vX")
+        ops = [{"k": "var", "out": out, "a": {"m": "m1", "val": _vdesc(rng), "bcv": st.A,
+                                              "noprecalc": True}}]
+        if rng.random() < 0.6:
+            ops.append({"k": "apply", "a": {"v": out}})
+        else:
+            ops.append({"k": "explicit", "out": st.fresh("vE"), "outb": st.fresh("bE"),
+                        "a": {"v": out, "dt": 0.01,
+                              "rhs": {"d": "rand", "lo": -1.0, "hi": 1.0, "s": _seed(rng)}}})
+        return ops
     if name == "apply_A_alloc_fails":
         return [{"k": "apply", "a": {"v": st.A, "inner": rng.choice(("alloc_cache", "alloc_ghost")),
                                      "nth": 1}}]
